@@ -358,6 +358,7 @@ func runC14(c *Ctx) {
 	resetExcl(c, "C14.reset-excl")
 	c.Borrow("C04", map[string]string{"C04.reg-before-walk": "C14.attach-order"}, "the deletes a Reset/Remove announces reach a subscriber only through its registration: a stream that walks the cache before it registers is sent the leaves and never the announcement that removed them (and a removed target's stream is never ended)")
 	walkExcl(c, "C14.walk-excl")
+	metaExport(c, "C14.meta-export")
 	// ---- meta init
 	c.Rule("C14.meta-init", "metadata.Clear ranges over the bool, int and string registries and calls ResetEntry for every key; ResetEntry has an arm for each kind and an error for unknown entries")
 	{
@@ -656,5 +657,103 @@ func walkExcl(c *Ctx, rule string) {
 			}
 			c.Floor(rule+"/queries", n, 1)
 		}
+	}
+}
+
+// metaExport: the metadata a Reset (or any lifecycle call) changes reaches the tree - and with it
+// queries and the change feed - only through generateMetaUpdates.  For every registry (bool, int,
+// string) and every key whose value was obtained: when the stored leaf's value differs from the
+// current metadata value the leaf is rewritten, whether or not a leaf already exists.  A pass that
+// only creates missing leaves leaves "synced / connected = true" in the tree after a Reset.
+func metaExport(c *Ctx, rule string) {
+	P := c.P
+	gen := P.Method("cache", "Target", "generateMetaUpdates")
+	upd := P.Method("cache", "Target", "gnmiUpdate")
+	if gen == nil || upd == nil {
+		c.Unresolved(rule, "cache.(*Target).generateMetaUpdates / gnmiUpdate")
+		return
+	}
+	c.Rule(rule, "(*Target).generateMetaUpdates, replayed with up to two keys per registry in the scenario 'key not excluded, value read without error, every comparison of the stored value with the current one reports a difference': every key whose value was read (Metadata.GetBool / GetInt / GetStr) is followed, before the next key, by a gnmiUpdate - whether or not a leaf for it already exists (a pass that only creates missing leaves keeps the pre-Reset values visible to queries and subscribers)")
+	c.Analysed(fnName(gen))
+	isGet := func(ev *Ev) bool {
+		return ev.Label == "call:(*metadata.Metadata).GetBool" || ev.Label == "call:(*metadata.Metadata).GetInt" || ev.Label == "call:(*metadata.Metadata).GetStr"
+	}
+	isUpd := lbl("call:" + fnName(upd))
+	same := P.Func("cache", "sameMetaValue")
+	opaque := map[*ssa.Function]bool{}
+	if same != nil {
+		opaque[same] = true
+	}
+	e := &PPA{MaxVisits: 3, MaxPaths: 20000, Opaque: opaque, Watch: func(ev *Ev) bool { return isGet(ev) || isUpd(ev) },
+		Cond: func(e *PPA, st *State, rv RV) (bool, bool) {
+			r := e.Resolve(st, rv)
+			switch v := r.V.(type) {
+			case *ssa.Call:
+				switch calleeName(&v.Call) {
+				case "cache.sameMetaValue", "value.Equal", "proto.Equal", "google.golang.org/protobuf/proto.Equal":
+					return false, true // the stored value differs
+				}
+				if g := staticCallee(&v.Call); g != nil && g.Name() == "Contains" {
+					return false, true // not excluded
+				}
+			case *ssa.BinOp:
+				if v.Op != token.EQL && v.Op != token.NEQ {
+					return false, false
+				}
+				for _, pr := range [][2]ssa.Value{{v.X, v.Y}, {v.Y, v.X}} {
+					if !isNilConst(pr[1]) {
+						continue
+					}
+					x := e.Resolve(st, RV{r.F, pr[0]})
+					if ex, ok := x.V.(*ssa.Extract); ok {
+						if call, ok := ex.Tuple.(*ssa.Call); ok {
+							switch calleeName(&call.Call) {
+							case "(*metadata.Metadata).GetBool", "(*metadata.Metadata).GetInt", "(*metadata.Metadata).GetStr":
+								if ex.Index == 1 {
+									return v.Op == token.EQL, true // no error
+								}
+							case fnName(upd):
+								if ex.Index == 0 {
+									return v.Op == token.NEQ, true // the update produced a leaf
+								}
+							}
+						}
+					}
+					if p, ok := x.V.(*ssa.Parameter); ok && p.Parent() == gen {
+						return v.Op == token.NEQ, true // the callback is set
+					}
+				}
+			}
+			return false, false
+		}}
+	e.Run(gen)
+	c.Paths += len(e.Paths)
+	if e.Overflow {
+		c.Unknown(rule, fnName(gen), "paths", P.Pos(gen.Pos()), "path overflow")
+		return
+	}
+	keys := map[string]int{}
+	for i := range e.Paths {
+		p := &e.Paths[i]
+		if p.End != "return" {
+			continue
+		}
+		for j := range p.Trace {
+			if !isGet(&p.Trace[j]) {
+				continue
+			}
+			kind := strings.TrimPrefix(p.Trace[j].Label, "call:(*metadata.Metadata).Get")
+			keys[kind]++
+			wrote := false
+			for k := j + 1; k < len(p.Trace) && !isGet(&p.Trace[k]); k++ {
+				if isUpd(&p.Trace[k]) {
+					wrote = true
+				}
+			}
+			c.Check(wrote, rule, fnName(gen), kind+" registry: a key whose stored value differs is rewritten", P.Pos(posOf(p.Trace[j].In)), "path: "+p.String())
+		}
+	}
+	for _, k := range []string{"Bool", "Int", "Str"} {
+		c.Floor(rule+"/"+k, keys[k], 1)
 	}
 }
